@@ -172,6 +172,19 @@ def _corpus():
                                      [('define', 'f', [], [('print', num(7))]),
                                       ('stage', (num(0), None), None, False)])]),
                  ('call', 'f', []), ('print', num(3))], pop))
+    # commands to other lights inside a matrix block load the NAME register; the block's matrix
+    # still reaches the light named in the `set` (repository fix 9355d2b); a block on a light
+    # without a matrix, with a command to a matrix light inside, sends nothing and does not abort
+    stage0 = ('stage', (num(0), None), None, False)
+    out.append(([('setreg', 'hue', num(10)),
+                 ('action', 'set', [('matrix_block', ('str', 'Candle'),
+                                     [('action', 'on', [('light', ('str', 'Top'))]), stage0,
+                                      ('action', 'set', [('light', ('str', 'Lamp'))])])]),
+                 ('print', num(3))], pop))
+    out.append(([('action', 'set', [('matrix_block', ('str', 'Top'),
+                                     [('action', 'set', [('zone', ('str', 'Candle'), num(4), num(4))]),
+                                      ('stage', (num(1), num(1)), (num(1), None), True)])]),
+                 ('print', num(1))], pop))
     # every edge between unit modes with a duration and a delay pending: the commands and waits
     # before and after the switch carry the durations the source says
     import itertools
